@@ -26,6 +26,59 @@ valid_case = generic.valid_case
 def cases(seed, tier):
     yield from generic.interruption_cases(ID, seed, tier, dev_faults=0.4, K=(12, 20), flyers=1)
     yield from generic.resume_window_cases(ID, seed, tier)
+    yield from subscriber_fails_on_stop_cases(seed, tier)
+
+
+def subscriber_fails_on_stop_cases(seed, tier):
+    """A subscriber (registered after the recorder) raises while it is handed a RunStop.  The document is out: the
+    run is over, whatever the plan does next under that run key (it copes with the error and tries to take another
+    data point, or lets the error pass) no document of the run follows its RunStop and no second RunStop is made."""
+    import copy
+
+    from sim import gen
+    from sim.dsl import msg
+
+    rng = gen.rng_for(ID, seed, "stop-subscriber")
+    specs = gen.gen_world(rng, motors=1, dets=2, flyers=0, p_async=0.3)
+    pg = gen.PlanGen(rng, specs)
+    S = pg.S
+    d = pg.dets[0]
+    for j in range(2 if tier == "quick" else 4):
+        keys = [None] if rng.random() < 0.5 else ["A", "B"]
+        plan = [msg(S, "open_run", None, run=k) for k in keys]
+        victim = keys[-1]
+        for k in keys:
+            plan += [msg(S, "checkpoint"), msg(S, "create", None, name="primary", run=k), msg(S, "read", d, run=k), msg(S, "save", None, run=k)]
+        handled = rng.random() < 0.7
+        close = msg(S, "close_run", None, run=victim)
+        if handled:
+            plan.append({"op": "try", "site": S(), "body": [close], "handlers": [{"exc": "Exception", "body": [msg(S, "null")], "reraise": False}]})
+            again = [msg(S, "create", None, name="primary", run=victim), msg(S, "read", d, run=victim), msg(S, "save", None, run=victim)]
+            if rng.random() < 0.5:
+                again = [msg(S, "close_run", None, run=victim)]
+            # (legal only while the run is still open: the plan does not know, it copes with the refusal)
+            plan.append({"op": "try", "site": S(), "body": again, "handlers": [{"exc": "IllegalMessageSequence", "body": [msg(S, "null")], "reraise": False}]})
+        else:
+            plan.append(close)
+        plan += [msg(S, "close_run", None, run=k) for k in keys if k != victim]
+        c = {
+            "prop": ID,
+            "seed": seed,
+            "variant": f"subscriber-fails-on-stop-{j}",
+            "sim": {"handle_cost": 0.0},
+            "re": {},
+            "devices": copy.deepcopy(specs),
+            "suspenders": {},
+            "callbacks": {"cbX": {"raise_at": {"stop": [0]}}},
+            "script": [
+                {"do": "subscribe", "cb": "cbX", "name": "all", "token": "x0"},
+                {"do": "call", "plan": plan, "main": True},
+                {"do": "call", "plan": [msg(S, "open_run"), msg(S, "close_run")], "tag": "followup-run"},
+            ],
+        }
+        for d_ in c["devices"].values():
+            d_.pop("faults", None)
+        yield c
 
 
 def _uids(name, doc):
